@@ -80,6 +80,11 @@ type pathRun struct {
 	inverses map[*smt.Term]invRec
 	summ     map[string]bool
 	lastFr   *frame
+	noSumm   bool
+	unwindAssume int
+	curveTab map[*value]*curveObj
+	nonneg   map[*smt.Term]bool
+	concPts  []concPt
 }
 
 func (p *pathRun) note(format string, a ...interface{}) {
